@@ -99,6 +99,8 @@ pub struct NodeState {
     /// Blocks the node has lost from its active chain (it came back from an outage behind its former tip) and will
     /// connect again when it catches up, oldest first.
     pub lost: Vec<BlockHash>,
+    /// Calls (RPC and block source) the node has answered, i.e. that did not end in a transport error.
+    pub served_calls: u64,
 }
 
 #[derive(Clone)]
@@ -197,6 +199,7 @@ impl NodeState {
             log,
             fired: BTreeMap::new(),
             lost: Vec::new(),
+            served_calls: 0,
         };
         let gh = gblock.block_hash();
         st.blocks.insert(gh, (gblock, 0));
@@ -221,6 +224,7 @@ impl NodeState {
                 log: EventLog::new(),
                 fired: BTreeMap::new(),
             lost: Vec::new(),
+            served_calls: 0,
             };
             for _ in 0..MAX_INITIAL {
                 tmp.mine(vec![]);
@@ -606,6 +610,8 @@ impl NodeState {
         }
         if self.faults.down {
             self.fire(if is_rpc { "F1_outage_rpc" } else { "F1_outage_blocksource" });
+        } else {
+            self.served_calls += 1;
         }
         !self.faults.down
     }
